@@ -369,6 +369,7 @@ def py_lints(ctx, py, mods, only=None):
     lib_py.py_width(ctx, py, mods, only=only)
     py_stale_rows(ctx, py, mods, only=only)
     py_find_index(ctx, py, mods, only=only)
+    py_default_independent(ctx, py, mods, only=only)
 
 
 TS_WRITERS_OK = {
@@ -925,3 +926,74 @@ def _py_closure(py, mods, only):
                     if tgt not in seen:
                         todo.append(tgt)
     return lambda mn, qn: (mn, qn) in seen
+
+
+def py_default_independent(ctx, py, mods, only=None, rule="PY-DEFAULT-INDEPENDENT"):
+    from sa.pyfront import params_of
+    ctx.rule(rule, "the value an option takes when it is left at None does not depend on another option that has a None-default of "
+                   "its own in the same function: `if update_sample_flags is None: update_sample_flags = filter_nodes` silently "
+                   "couples two documented, independent defaults")
+    n = 0
+    for mn in mods:
+        m = py.mod(mn)
+        for qn, fn in m.funcs.items():
+            if only is not None and not only(mn, qn):
+                continue
+            a, k, _ = params_of(fn)
+            ps = set(a + k) - {"self", "cls"}
+            res = {}
+            for x in ast.walk(fn):
+                if isinstance(x, ast.If) and isinstance(x.test, ast.Compare) and len(x.test.ops) == 1 and isinstance(x.test.ops[0], ast.Is) \
+                        and isinstance(x.test.left, ast.Name) and isinstance(x.test.comparators[0], ast.Constant) \
+                        and x.test.comparators[0].value is None and x.test.left.id in ps:
+                    v = x.test.left.id
+                    for s in x.body:
+                        if isinstance(s, ast.Assign) and len(s.targets) == 1 and isinstance(s.targets[0], ast.Name) and s.targets[0].id == v:
+                            res[v] = s
+            for v, s in sorted(res.items()):
+                val = s.value
+                if isinstance(val, ast.UnaryOp) and isinstance(val.op, ast.Not):
+                    val = val.operand
+                deps = ({val.id} if isinstance(val, ast.Name) else set()) & (set(res) - {v})     # a bare copy of a sibling option
+                n += 1
+                ctx.ob(rule, "%s.%s|%s" % (mn, qn, v), not deps, m.loc(s),
+                       "default of %s: %s" % (v, ast.unparse(s.value)[:50]) if not deps else
+                       "the default of `%s` is taken from `%s`, another option with its own default" % (v, sorted(deps)[0]))
+    return n
+
+
+_PARITY_BUILTINS = {"range", "len", "enumerate", "zip", "int", "float", "list", "tuple", "np.arange", "np.zeros", "np.empty", "np.array", "isinstance"}
+
+
+def py_windows_parity(ctx, py, funcs, rule="PY-WINDOWS-PARITY"):
+    """funcs: [(module, qualname)] whose `if windows is None: … else: …` applies one post-processing to one or to each window."""
+    ctx.rule(rule, "where a statistic is post-processed once when `windows is None` and once per window otherwise, the two branches "
+                   "call the same set of functions (loop scaffolding aside): a correction applied in one branch only makes a single "
+                   "window [0, L] differ from the unwindowed result")
+    n = 0
+
+    def cnames(stmts):
+        out = set()
+        for s in stmts:
+            for c in ast.walk(s):
+                if isinstance(c, ast.Call):
+                    nm = ast.unparse(c.func)
+                    if nm not in _PARITY_BUILTINS:
+                        out.add(nm)
+        return out
+    for mn, qn in funcs:
+        m = py.mod(mn)
+        fn = py.func(mn, qn)
+        found = False
+        for x in ast.walk(fn):
+            if isinstance(x, ast.If) and x.orelse and isinstance(x.test, ast.Compare) and isinstance(x.test.left, ast.Name) \
+                    and x.test.left.id == "windows" and isinstance(x.test.ops[0], (ast.Is, ast.IsNot)):
+                a, b = cnames(x.body), cnames(x.orelse)
+                found = True
+                n += 1
+                ctx.ob(rule, "%s.%s" % (mn, qn), a == b, m.loc(x),
+                       "both branches call %s" % sorted(a) if a == b else
+                       "only the %s branch calls %s" % ("`windows is None`" if (a - b) else "windowed", sorted((a - b) or (b - a))))
+        if not found:
+            ctx.ob(rule, "%s.%s" % (mn, qn), False, m.loc(fn), "no `if windows is None: … else: …` found")
+    return n
